@@ -12,6 +12,58 @@ def strip_col(hs, col):
     return "/".join(",".join(x for x in r.split(",") if x and int(x) != col) for r in rows)
 
 
+def rfc5170_matrix(k, r, n1, seed):
+    """RFC 5170 section 6.2.1 (left_matrix_init, pseudo-code of the RFC) + 4.2.x staircase, written from the RFC's text,
+    not from the C: Park-Miller pmms_rand, homogeneous '1' distribution through the list u[], extra bits for rows of
+    degree < 2, lower staircase.  Returns rows as sorted column lists in the library's column space (repairs first)."""
+    st = [seed]
+
+    def pmms_rand(maxv):
+        hi, lo = 16807 * (st[0] >> 16), 16807 * (st[0] & 0xFFFF)
+        lo += (hi & 0x7FFF) << 16
+        lo += hi >> 15
+        if lo > 0x7FFFFFFF:
+            lo -= 0x7FFFFFFF
+        st[0] = lo
+        return int(float(lo) * float(maxv) / float(0x7FFFFFFF))
+    rows = [set() for _ in range(r)]
+    u = [h % r for h in range(n1 * k)]
+    t = 0
+    for j in range(k):
+        for _h in range(n1):
+            i = t
+            while i < n1 * k and j in rows[u[i]]:
+                i += 1
+            if i < n1 * k:
+                while True:
+                    i = t + pmms_rand(n1 * k - t)
+                    if j not in rows[u[i]]:
+                        break
+                rows[u[i]].add(j)
+                u[i] = u[t]
+                t += 1
+            else:
+                while True:
+                    i = pmms_rand(r)
+                    if j not in rows[i]:
+                        break
+                rows[i].add(j)
+    for i in range(r):
+        if len(rows[i]) == 0:
+            rows[i].add(pmms_rand(k))
+        if len(rows[i]) == 1 and k > 1:
+            while True:
+                j = pmms_rand(k)
+                if j not in rows[i]:
+                    break
+            rows[i].add(j)
+    out = []
+    for i in range(r):
+        rep = [i] if i == 0 else [i - 1, i]
+        out.append(sorted(rep + [j + r for j in rows[i]]))
+    return "/".join(",".join(map(str, row)) for row in out)
+
+
 def run(c):
     g = gen_funcs.gen_prng(c.snap)
     for p in g["problems"]:
@@ -44,6 +96,7 @@ def run(c):
         c.violation("matrix construction crashed: %s" % ans[kx][:200], "pchk-crash", {"stream": "pchk", "request": reqs[kx], "stderr": se})
     mreq, midx = [], []
     byparam = {}
+    rfc_done = set()
     for i, (k, r, n1, s, role, hist) in enumerate(meta):
         w = dict((t[0] if t[0] != "G" or not t.startswith("G0") else "G0", t) for t in ans[i].split()[1:]) if not ans[i].startswith(("CRASH", "SKIPPED")) else None
         if w is None:
@@ -72,6 +125,15 @@ def run(c):
                 c.violation("k=%d r=%d N1=%d seed=%d: matrix / flags of a %s session after %d other session(s) differ from those of request %d" % (
                             k, r, n1, s, "decoder" if role == 2 else "encoder", hist, ref[3]), "pchk-depends-on-history",
                             {"stream": "pchk", "request": reqs[i], "reference_request": reqs[ref[3]], "c_answer": ans[i][:600]})
+        if k * n1 <= 6000 and key not in rfc_done:
+            rfc_done.add(key)
+            want_rfc = rfc5170_matrix(k, r, n1, s)
+            got = hs if not (role == 2 and d.get("LN") == "1") else None
+            if got is not None and got != want_rfc:
+                c.violation("k=%d r=%d N1=%d seed=%d: the session's parity-check matrix is not the one RFC 5170 defines (independent transcription of the RFC's pseudo-code)" % (k, r, n1, s),
+                            "pchk-not-rfc5170", {"stream": "pchk", "request": reqs[i], "c_matrix": hs[:3000], "rfc_matrix": want_rfc[:3000]})
+            elif got is None:
+                rfc_done.discard(key)
         c.dist("role%d" % role); c.dist("after%d" % hist); c.dist("extra%s" % d["X"])
         if k * n1 <= 4000:
             mreq.append("Q %d %d %d %d %s %d" % (k, r, n1, s, d["G0"], 20000)); midx.append((i, d, hs, role))
@@ -100,4 +162,4 @@ def run(c):
     c.cov["rule"] = ("(k, r, N1, seed) grid incl. k=1,2, N1=3 and N1=r, rate extremes, seeds 1 and 2^31-2 x {encoder, decoder} x {fresh process state, after 1 or 2 other sessions}; "
                      "distinct = distinct parameter sets; every request builds a matrix (non-trivial)")
     c.cov["samples"] = [reqs[0], reqs[len(reqs) // 2], reqs[-1]]
-    c.trusted = vlib.BASE_TRUST + ["Pchk.v: hand-written mirror of of_create_pchck_matrix_rfc5170_compliant over Sparse.v and the generated PRNG; that this is RFC 5170's left_matrix_init + staircase is by transcription (RFC text not available offline)"]
+    c.trusted = vlib.BASE_TRUST + ["Pchk.v: hand-written mirror of of_create_pchck_matrix_rfc5170_compliant over Sparse.v and the generated PRNG; tools/props/C05.py rfc5170_matrix: a second, independent transcription of RFC 5170's pseudo-code (from the RFC's text as I know it; the RFC itself is not available offline) compared with every C matrix"]
